@@ -545,10 +545,11 @@ impl<S: Storage> Builder<S> {
             crate::verif::point_sync("exec.spawn", &tag);
             tag
         };
+        let panic_tx = tx.clone();
         let handle = tokio::task::Builder::default()
             .name(&format!("{id}.{name}"))
             .spawn(
-                async move {
+                forward_panic(panic_tx, async move {
                     #[cfg(risinglight_verif)]
                     let mut verif_k = 0usize;
                     while let Some(item) = stream.next().await {
@@ -588,7 +589,7 @@ impl<S: Storage> Builder<S> {
                     // verif hook H4: the operator's stream ended normally.
                     #[cfg(risinglight_verif)]
                     crate::verif::point_sync("exec.end", &format!("{verif_tag}#{verif_k}"));
-                }
+                })
                 .instrument(tracing::info_span!("executor", id = usize::from(id), name))
                 .timed(span),
             )
@@ -629,6 +630,44 @@ impl StreamSubscriber {
             drop(handle);
         }
         to_stream(self.rx.activate_cloned(), self.handle.clone())
+    }
+}
+
+/// Runs an operator task; a panic inside it reaches the consumers as an error item. If the task
+/// just died, its sender would be dropped and the consumers would read a clean end of stream: the
+/// statement would return Ok with the rows produced so far, INSERT/DELETE would commit them.
+async fn forward_panic(
+    tx: async_broadcast::Sender<Result<DataChunk>>,
+    task: impl std::future::Future<Output = ()>,
+) {
+    if let Err(message) = CatchPanic(Box::pin(task)).await {
+        _ = tx.broadcast(Err(ExecutorError::panicked(message))).await;
+    }
+}
+
+/// Polls a future, turning a panic inside it into `Err(panic message)`.
+struct CatchPanic<F>(std::pin::Pin<Box<F>>);
+
+impl<F: std::future::Future> std::future::Future for CatchPanic<F> {
+    type Output = std::result::Result<F::Output, String>;
+
+    fn poll(
+        mut self: std::pin::Pin<&mut Self>,
+        cx: &mut std::task::Context<'_>,
+    ) -> std::task::Poll<Self::Output> {
+        use std::task::Poll;
+        let inner = self.0.as_mut();
+        match std::panic::catch_unwind(std::panic::AssertUnwindSafe(|| inner.poll(cx))) {
+            Ok(Poll::Pending) => Poll::Pending,
+            Ok(Poll::Ready(output)) => Poll::Ready(Ok(output)),
+            Err(payload) => Poll::Ready(Err(match payload.downcast_ref::<&str>() {
+                Some(s) => s.to_string(),
+                None => match payload.downcast_ref::<String>() {
+                    Some(s) => s.clone(),
+                    None => "unknown panic".to_string(),
+                },
+            })),
+        }
     }
 }
 
